@@ -62,6 +62,13 @@ class OpenCtx(BaseCtx):
         live = w.live_conns()
         for k, c in enumerate(live):
             if c.closing():
+                if self.cfg.get("late_close") and self.stage != "established" and (
+                        w.reactor.due() or any(x.state == "connecting" or x.readable() for x in live)):
+                    # the peer is slow to take our close: its completion is delivered only once the next
+                    # session is up (nothing else pending -> complete it, the agent may be waiting for it)
+                    continue
+                if self.stage == "established":
+                    self.stats["gen:late_close_during_next_session"] += 1
                 return ["cdone", k]
         if self.stage == "wait_connect":
             if self.sessions_left <= 0:
@@ -81,13 +88,28 @@ class OpenCtx(BaseCtx):
             self.stage = "wait_connect"
             return self.choose(rng)
         cfg = self.cfg
+        if self.stage == "opensent" and self.cfg.get("hfail_only") and w.handler_fail_in is None and rng.chance(0.3):
+            # the application handler will raise (storage full) when it is handed the peer's OPEN
+            self.stats["gen:handler_fault_at_open_received"] += 1
+            return ["hfail", 1]
         if self.stage == "opensent":
             variant = rng.weighted([("valid", 6), ("hold0", 1), ("badver", 1), ("badas", 1.5), ("hold1", 1), ("hold2", 1)])
             self.stage = "after_open"
-            return ["send", k, self.peer_open(rng, variant).hex(), []]
+            self.gen_last_open = self.peer_open(rng, variant)
+            return ["send", k, self.gen_last_open.hex(), []]
         if self.stage == "after_open":
             # accepted -> KEEPALIVE to establish; else the session is over
             if w.state() == "OPENCONFIRM":
+                if self.cfg.get("second_open") and not getattr(self, "second_open_sent", None) == self.session and rng.chance(0.4):
+                    # the peer repeats its OPEN with another hold time before its KEEPALIVE (ignored, or refused
+                    # as an FSM error: either way the hold time of the session is the one of the first OPEN)
+                    self.second_open_sent = self.session
+                    self.stats["gen:second_open_in_openconfirm"] += 1
+                    first = self.gen_last_open
+                    old_hold = struct.unpack("!H", first[22:24])[0]
+                    new_hold = rng.pick([h for h in (0, 3, 30, 90, 180, 240) if h != old_hold])
+                    # (same capabilities, AS and identifier: only the hold time differs)
+                    return ["send", k, (first[:22] + struct.pack("!H", new_hold) + first[24:]).hex(), []]
                 if rng.chance(0.2):
                     # the session ends before it is established: NOTIFICATION (version error or other),
                     # close or reset in OpenConfirm
@@ -112,7 +134,7 @@ class OpenCtx(BaseCtx):
             if self.cur is not None and not self.cur.get("ka_wait") and self.cur.get("H") and rng.chance(0.7):
                 self.cur["ka_wait"] = True          # (generation only: let the keepalive timer fire once)
                 return ["fire", 0]
-            if self.cur is not None and self.cur.get("H") and self.cur.get("accepted") and (
+            if self.cur is not None and self.cur.get("H") is not None and self.cur.get("accepted") and (
                     self.cur.get("silent") or rng.chance(0.3)):
                 # the peer goes silent: the hold timer must expire exactly H = min(configured, proposed)
                 # seconds after the last message it sent
@@ -416,6 +438,9 @@ class OpenProfile(BaseProfile):
             cfg["add_path"] = rng.pick([None, None, "ipv4_send", "ipv4_receive", "ipv4_both"])
             cfg["afi_safi"] = rng.pick([["ipv4"], ["ipv4", "ipv6"], ["ipv4", "flowspec"], ["ipv4", "ipv4_lu"], ["ipv4", "evpn", "bgpls"]])
         cfg["n_sessions"] = rng.randrange(2, 6)
+        cfg["late_close"] = rng.chance(0.25)
+        cfg["second_open"] = rng.chance(0.25)
+        cfg["hfail_only"] = ["open_received"] if rng.chance(0.25) else None
         cfg["max_ops"] = 120
         return cfg
 
